@@ -16,6 +16,7 @@ TOp == /\ Ev("Op")
             [] R.op = "copy" -> Copy(R.o, R.i, R.p, R.j)
             [] R.op = "clear" -> Clear(R.o, R.i)
             [] R.op = "put" -> Put(R.o, R.i, R.p, R.j)
+            [] R.op = "putr" -> PutR(R.o, R.i, R.p, R.j)
             [] R.op = "fp" -> NewFp(R.o, R.i, R.j)
             [] R.op = "callout" -> CallOut(R.o, R.i)
             [] R.op = "rmco" -> \E k \in 1..2 : RmCallOut(R.o, k)
